@@ -27,8 +27,8 @@ theorem linBy_eq_lin (i : Impl K) : i.linBy flagOf = i.lin := by
   | const d c => simp [Impl.linBy, flagOf, Flag.apply]
   | zero d => simp [Impl.linBy, flagOf, Flag.apply]
 
-theorem dRMul_scal (env : Nat → Vec K → Vec K) (a : Impl K) (s : K) (h : FnRan a) :
-    dispatchRMul tables env a (.scal s) = some (opRMulScal s a) := by
+theorem dRMul_scal (env : Nat → Vec K → Vec K) (a : Impl K) (s : K) (re : Bool) (h : FnRan a) :
+    dispatchRMul tables env a (.scal s re) = some (opRMulScal s a) := by
   unfold dispatchRMul opRMulScal
   by_cases hf : a.isFn = true
   · have hr := h hf
@@ -56,12 +56,12 @@ theorem dMul_op (env : Nat → Vec K → Vec K) (a b : Impl K) :
     cases hp : rscalParts a <;>
       simp [hf', hp, tables, rscalMul, operatorMul, Act.eval, Guard.eval, construct, ctorComp]
 
-theorem dMul_scal (env : Nat → Vec K → Vec K) (a : Impl K) (s : K) (h : FnRan a) :
-    dispatchMul tables env a (.scal s) = some (opMulScal env a s) := by
+theorem dMul_scal (env : Nat → Vec K → Vec K) (a : Impl K) (s : K) (re : Bool) (h : FnRan a) :
+    dispatchMul tables env a (.scal s re) = some (opMulScal env a s re) := by
   unfold dispatchMul opMulScal
   by_cases hf : a.isFn = true
   · have hr := h hf
-    by_cases hs : s = 0 <;> by_cases hl : a.lin = true <;>
+    by_cases hs : s = 0 <;> by_cases hl : a.lin = true <;> cases re <;>
       simp [hf, hr, hs, hl, tables, functionalMul, Act.eval, Guard.eval, construct]
   · have hf' : a.isFn = false := by simpa using hf
     cases hp : rscalParts a with
@@ -70,9 +70,11 @@ theorem dMul_scal (env : Nat → Vec K → Vec K) (a : Impl K) (s : K) (h : FnRa
       simp [hf', hp, tables, rscalMul, Act.eval, Guard.eval, construct]
     | none =>
       by_cases hl : a.lin = true
-      · have := dRMul_scal env a s h
-        simp [hf', hl, tables, operatorMul, Act.eval, Guard.eval] at this ⊢
-        exact this
+      · cases re
+        · simp [hf', hl, tables, operatorMul, Act.eval, Guard.eval, construct]
+        · have := dRMul_scal env a s true h
+          simp [hf', hl, tables, operatorMul, Act.eval, Guard.eval] at this ⊢
+          exact this
       · simp [hf', hl, tables, operatorMul, Act.eval, Guard.eval, construct]
 
 theorem dMul_vec (env : Nat → Vec K → Vec K) (a : Impl K) (v : VecLit K) (h : FnRan a) :
@@ -100,8 +102,8 @@ theorem dAdd_op (env : Nat → Vec K → Vec K) (a b : Impl K) :
   · have hf' : a.isFn = false := by simpa using hf
     simp [hf', tables, operatorAdd, Act.eval, Guard.eval, construct, ctorSum]
 
-theorem dAdd_scal (env : Nat → Vec K → Vec K) (a : Impl K) (s : K) (h : FnRan a) :
-    dispatchAdd tables env a (.scal s) = opAddScal a s := by
+theorem dAdd_scal (env : Nat → Vec K → Vec K) (a : Impl K) (s : K) (re : Bool) (h : FnRan a) :
+    dispatchAdd tables env a (.scal s re) = opAddScal a s := by
   unfold dispatchAdd opAddScal
   by_cases hf : a.isFn = true
   · have hr := h hf
